@@ -35,7 +35,7 @@ from . import common
 from .common import Check, Graph, impl_call
 
 INVS = ["TypeOK", "ClaimConsistent", "CircuitsAnchored"]
-PROPS = ["GhostsRight", "AnnounceRule", "ClaimRule", "DeliveredOnce", "UseCircuitRule", "DiscardsInert", "NoCrossTalk", "OnlyNamedChanges",
+PROPS = ["GhostsRight", "AnnounceRule", "CloseRule", "ClaimRule", "DeliveredOnce", "UseCircuitRule", "DiscardsInert", "NoCrossTalk", "OnlyNamedChanges",
          "OpenStaysDeliverable"]
 SOCKS_BAD = ("badrsv", "badfrag", "badatyp", "shortsocks")
 LLUDP_BAD = ("short", "unkmsg")
@@ -44,7 +44,7 @@ KILL_KINDS = {"killc": "CloseCircuit", "killd": "DisableSimulator"}
 
 
 def _consts(c):
-    return 'NA = %(NA)d NS = %(NS)d NH = %(NH)d Dyn = %(Dyn)s NG = %(NG)d GMode = "%(GMode)s"' % c
+    return 'NA = %(NA)d NS = %(NS)d NH = %(NH)d Dyn = %(Dyn)s NG = %(NG)d Tcp = %(Tcp)s GMode = "%(GMode)s"' % c
 
 
 # ----------------------------------------------------------------------------------------
@@ -236,18 +236,44 @@ class FakeDatagramTransport:
 
     def __init__(self, sink, a):
         self.sink, self.a = sink, a
+        self.closed = False
 
     def sendto(self, data, addr=None):
-        self.sink.append((self.a, bytes(data), addr))
+        self.sink.append((self.a, bytes(data), addr))     # also when closed: nothing may be sent then
 
     def close(self):
-        pass
+        self.closed = True
 
     def abort(self):
-        pass
+        self.closed = True
 
     def get_extra_info(self, name, default=None):
-        return default
+        return ("0.0.0.0", 30000 + self.a) if name == "sockname" else default
+
+
+class FakeStreamWriter:
+    """Stands for the StreamWriter of one viewer's SOCKS control (TCP) connection."""
+
+    def __init__(self, peer):
+        self.peer = peer
+        self.data = bytearray()
+        self.closed = False
+
+    def get_extra_info(self, name, default=None):
+        return self.peer if name == "peername" else default
+
+    def write(self, b):
+        if not self.closed:
+            self.data += bytes(b)
+
+    async def drain(self):
+        return None
+
+    def close(self):
+        self.closed = True
+
+
+_ENDPOINT_HOOK = None     # set by the World that is associating: (protocol factory) -> (transport, protocol)
 
 
 _LOOP = None
@@ -260,6 +286,13 @@ def _loop():
         _LOOP = asyncio.new_event_loop()
         asyncio.set_event_loop(_LOOP)
         _LOOP_PID = os.getpid()
+
+        async def fake_endpoint(factory, local_addr=None, **kw):
+            # the UDP socket SOCKS5Server binds for a UDP ASSOCIATE command
+            if _ENDPOINT_HOOK is None:
+                raise common.MachineryError("datagram endpoint requested outside an Associate step")
+            return _ENDPOINT_HOOK(factory)
+        _LOOP.create_datagram_endpoint = fake_endpoint
     return _LOOP
 
 
@@ -305,9 +338,13 @@ def _addr(e):
 
 
 class World:
-    def __init__(self, pool: Pool, clients, sims, unk, NA, NS, NH, rng):
+    """Real SessionManager + SLSOCKS5Server; every viewer's UDP association is created by the real
+    SOCKS5Server.handle_connection from a hand-fed StreamReader (greeting, UDP ASSOCIATE) and ends
+    when that reader gets EOF."""
+
+    def __init__(self, pool: Pool, clients, sims, unk, NA, NS, NH, rng, tcp=False):
         from hippolyzer.lib.base.datatypes import UUID
-        from hippolyzer.lib.proxy.lludp_proxy import InterceptingLLUDPProxyProtocol
+        from hippolyzer.lib.proxy.lludp_proxy import SLSOCKS5Server
         _loop()
         self.UUID = UUID
         self.pool, self.rng = pool, rng
@@ -316,12 +353,10 @@ class World:
         self.sims = [_addr(s) for s in sims[:NH]]
         self.unk = _addr(unk)
         self.sm = _session_manager()
+        self.server = SLSOCKS5Server(self.sm)
         self.sink = []
-        self.protos = []
-        for a in range(NA):
-            p = InterceptingLLUDPProxyProtocol((self.clients[a][0], 40000 + a), self.sm)
-            p.connection_made(FakeDatagramTransport(self.sink, a + 1))
-            self.protos.append(p)
+        self.protos = [None] * NA      # the association's protocol object, once associated
+        self.ctl = [None] * NA         # control connection: {"reader","writer","task","dgram"}
         self.sessions = [None] * NS
         self.ids = [(self._uuid(), self._uuid(), self._uuid(), rng.randrange(1, 1 << 31)) for _ in range(NS)]
         # packet IDs (LLUDP sequence numbers): one world in four counts up from a small number as a fresh
@@ -330,13 +365,56 @@ class World:
         self.pid_wild = rng.random() < 0.75
         self.pid_log = []
         self.cursor = rng.randrange(1 << 30)
+        if not tcp:       # models without control connections: every viewer is associated from the start
+            for a in range(1, NA + 1):
+                self.associate(a)
 
     def _uuid(self):
         return self.UUID(bytes=bytes(self.rng.randrange(256) for _ in range(16)))
 
+    def associate(self, a):
+        """Viewer a connects to the SOCKS5 server and asks for a UDP association."""
+        global _ENDPOINT_HOOK
+        lp = _loop()
+        c = {"reader": asyncio.StreamReader(loop=lp), "writer": FakeStreamWriter((self.clients[a - 1][0], 40000 + a)),
+             "dgram": None}
+
+        def hook(factory):
+            proto = factory()
+            tr = FakeDatagramTransport(self.sink, a)
+            proto.connection_made(tr)
+            c["dgram"] = tr
+            self.protos[a - 1] = proto
+            return tr, proto
+        self.ctl[a - 1] = c
+        c["task"] = lp.create_task(self.server.handle_connection(c["reader"], c["writer"]))
+        _ENDPOINT_HOOK = hook
+        try:
+            c["reader"].feed_data(b"\x05\x01\x00")                              # version 5, one method: no auth
+            _pump(3)
+            c["reader"].feed_data(b"\x05\x03\x00\x01" + bytes(4) + bytes(2))      # UDP ASSOCIATE 0.0.0.0:0
+            _pump(4)
+        finally:
+            _ENDPOINT_HOOK = None
+
+    def close_control(self, a):
+        """The control connection of viewer a ends (EOF)."""
+        self.ctl[a - 1]["reader"].feed_eof()
+        _pump(5)
+
     def close(self):
+        for c in self.ctl:
+            if c is None:
+                continue
+            if not c["task"].done():
+                c["task"].cancel()
+        _pump(3)
+        for c in self.ctl:
+            if c is not None and c["task"].done() and not c["task"].cancelled():
+                c["task"].exception()      # retrieve, so asyncio does not complain
         for p in self.protos:
-            p.resend_task.cancel()
+            if p is not None:
+                p.resend_task.cancel()
         for se in list(self.sm.sessions):
             self.sm.close_session(se)
         _pump(2)
@@ -453,7 +531,7 @@ class World:
 
     def open_sim(self, a):
         """A simulator the session held by association a has a circuit with (else simulator 1)."""
-        se = self.protos[a - 1].session
+        se = self.protos[a - 1].session if self.protos[a - 1] is not None else None
         if se is not None:
             for r in se.regions:
                 if r.circuit is not None and r.circuit_addr in self.sims:
@@ -464,14 +542,23 @@ class World:
     def proj(self):
         st, regs, circ = [], [], []
         sess = []
+        ctl = []
+        for c in self.ctl:
+            if c is None:
+                ctl.append("none")
+                continue
+            alive = not c["task"].done() and not c["writer"].closed
+            sock = c["dgram"] is not None and not c["dgram"].closed
+            ctl.append("open" if alive and sock else "closed" if not alive and not sock
+                       else "control %s, udp socket %s" % ("alive" if alive else "ended", "open" if sock else "closed or missing"))
         for p in self.protos:
-            if p.session is None:
+            if p is None or p.session is None:
                 sess.append(0)
             else:
                 sess.append(next((i + 1 for i, x in enumerate(self.sessions) if x is p.session), 99))
         for i, se in enumerate(self.sessions):
             if se is None or se not in self.sm.sessions:
-                st.append("absent")
+                st.append("absent" if se is None else "gone")
                 regs.append([])
                 circ.append(["none"] * self.NH)
                 continue
@@ -495,7 +582,7 @@ class World:
                 row[h - 1] = v
             regs.append(sorted(rs))
             circ.append(row)
-        return {"st": st, "regs": regs, "sess": sess, "circ": circ}
+        return {"ctl": ctl, "st": st, "regs": regs, "sess": sess, "circ": circ}
 
 
 # ----------------------------------------------------------------------------------------
@@ -535,6 +622,11 @@ def _apply(w: World, lay, act):
         w.login(act["s"], act["_login_sim"], act["_login_handle"])
         _pump()
         return "Login", b"", list(w.sink), None
+    if act["n"] in ("Assoc", "Close"):
+        del w.sink[:]
+        (w.associate if act["n"] == "Assoc" else w.close_control)(act["a"])
+        _pump()
+        return act["n"], b"", list(w.sink), None
     if act["n"] == "Reg":
         del w.sink[:]
         way = w.add_region(act["s"], act["h"], act["a"])      # a Reg event carries the handle in field a
@@ -556,7 +648,7 @@ def _expected(w: World, lay, obs, pl):
 
 
 def _norm_state(d):
-    return {"st": d["st"], "regs": [sorted(r) for r in d["regs"]], "sess": d["sess"], "circ": d["circ"]}
+    return {"ctl": d["ctl"], "st": d["st"], "regs": [sorted(r) for r in d["regs"]], "sess": d["sess"], "circ": d["circ"]}
 
 
 def _judge(w: World, lay, e, pl, sends, raised, pr):
@@ -628,7 +720,8 @@ def _path_to(skey):
 
 def _new_world(lay, seed):
     c = _CONST
-    return World(_POOL, lay["clients"], lay["sims"], lay["unk"], c["NA"], c["NS"], c["NH"], random.Random(seed))
+    return World(_POOL, lay["clients"], lay["sims"], lay["unk"], c["NA"], c["NS"], c["NH"], random.Random(seed),
+                 tcp=c["Tcp"] == "TRUE")
 
 
 def _reach(lay, skey, seed):
@@ -907,11 +1000,26 @@ def _rand_addrs(rng, NA, NH):
 def _walk(pool: Pool, seed, NA, NS, NH, length):
     rng = random.Random(seed)
     clients, sims, unk = _rand_addrs(rng, NA, NH)
-    w = World(pool, clients, sims, unk, NA, NS, NH, rng)
+    w = World(pool, clients, sims, unk, NA, NS, NH, rng, tcp=True)
     evs = [{"ev": "Cfg", "clients": clients, "sims": sims}]
     logged = {}
     registered = {}
+    gone = set()
     stats = {"fwd_c": 0, "fwd_h": 0, "discards": 0, "names": set(), "selfie": {}}
+    open_a = []
+
+    def control(name, a):
+        """Viewer a's SOCKS control connection asks for its UDP association / ends."""
+        del w.sink[:]
+        (w.associate if name == "Assoc" else w.close_control)(a)
+        _pump()
+        evs.append({"ev": name, "a": a, "sent": [{"via": v, "data": list(d), "to": _ipb(t)} for v, d, t in w.sink], "proj": w.proj()})
+    late = list(range(2, NA + 1)) if rng.random() < 0.3 else []      # viewers that connect during the run
+    for a in range(1, NA + 1):
+        if a not in late:
+            control("Assoc", a)
+            open_a.append(a)
+    close_at = rng.randrange(int(length * 0.3), int(length * 0.9)) if rng.random() < 0.5 else -1
 
     def sent_json(sends):
         return [{"via": v, "data": list(d), "to": _ipb(t)} for v, d, t in sends]
@@ -922,7 +1030,24 @@ def _walk(pool: Pool, seed, NA, NS, NH, length):
     selfie_from = int(length * 0.7) if rng.random() < 0.25 else length   # mis-addressed to a viewer: late, in some walks
     for step in range(length):
         c = rng.random()
-        pending_login = [s for s in range(1, NS + 1) if s not in logged]
+        if late and step == length // 4:
+            for a in late:
+                control("Assoc", a)
+                open_a.append(a)
+            late = []
+            continue
+        if step == close_at and open_a:
+            a = rng.choice(open_a)
+            held = w.protos[a - 1].session
+            s = next((i + 1 for i, x in enumerate(w.sessions) if x is held), 0) if held is not None else 0
+            control("Close", a)
+            open_a.remove(a)
+            if s:        # the session that association held ends with it
+                gone.add(s)
+                logged.pop(s, None)
+                registered.pop(s, None)
+            continue
+        pending_login = [s for s in range(1, NS + 1) if s not in logged and s not in gone]
         if pending_login and (step == 0 or c < 0.06):
             s = rng.choice(pending_login)
             h = ((s - 1) % NH) + 1
@@ -944,7 +1069,9 @@ def _walk(pool: Pool, seed, NA, NS, NH, length):
             registered[s].add(h)
             evs.append({"ev": "Reg", "s": s, "g": g, "h": h, "way": way, "sent": sent_json(w.sink), "proj": w.proj()})
             continue
-        a = rng.randrange(1, NA + 1)
+        if not open_a:
+            continue
+        a = rng.choice(open_a)
         held = w.protos[a - 1].session
         held_s = next((i + 1 for i, x in enumerate(w.sessions) if x is held), 0) if held is not None else 0
         # far host: mostly one that matters to this association
@@ -1027,8 +1154,16 @@ def _churn_walk(pool: Pool, seed, NA, NS, NH, n_far):
     its simulators (nothing refreshes whatever the proxy remembers about them); afterwards it does."""
     rng = random.Random(seed)
     clients, sims, unk = _rand_addrs(rng, NA, NH)
-    w = World(pool, clients, sims, unk, NA, NS, NH, rng)
+    w = World(pool, clients, sims, unk, NA, NS, NH, rng, tcp=True)
     evs = [{"ev": "Cfg", "clients": clients, "sims": sims}]
+
+    def control(name, b):
+        del w.sink[:]
+        (w.associate if name == "Assoc" else w.close_control)(b)
+        _pump()
+        evs.append({"ev": name, "a": b, "sent": [{"via": v, "data": list(d), "to": _ipb(t)} for v, d, t in w.sink], "proj": w.proj()})
+    for b in range(1, NA + 1):
+        control("Assoc", b)
     stats = {"fwd_c": 0, "fwd_h": 0, "discards": 0, "names": set(), "selfie": {}, "churn": n_far}
     taken = {(tuple(e["ip"]), e["port"]) for e in clients + sims}
 
@@ -1093,8 +1228,19 @@ def _churn_walk(pool: Pool, seed, NA, NS, NH, n_far):
     s, hs = live[a]
     strangers = []
     quiet_until = int(n_far * 0.7)
+    # in most runs another viewer's control connection ends on the way (its association and session go,
+    # with or without circuits); the churning viewer must not notice
+    others = [x for x in range(1, NA + 1) if x != a]
+    close_other_at = int(n_far * rng.choice([0.1, 0.35, 0.6])) if others and rng.random() < 0.7 else -1
     done = 0
     while done < n_far:
+        if done == close_other_at:
+            b = rng.choice(others)
+            control("Close", b)
+            live.pop(b, None)
+            close_other_at = -1
+            far(a, sims[rng.choice(hs) - 1], "msg")
+            continue
         c = rng.random()
         if c < 0.72:
             tgt = fresh()
@@ -1144,7 +1290,7 @@ def _b2(chk: Check, n_walks, length, label, churn=()):
     res = [x for part in common.parallel_map(_walk_chunk, common.chunked(args, common.NCPU)) for x in part]
     chk.notes.append("B2 %s: %d walks recorded in %.1fs" % (label, n_walks, time.time() - t0))
     traces = [r[0] for r in res]
-    cfg = ("SPECIFICATION TraceSpec\nCONSTANTS NA = %d NS = %d NH = %d Dyn = TRUE NG = 2 GMode = \"any0\"\nPOSTCONDITION TraceAccepted\n"
+    cfg = ("SPECIFICATION TraceSpec\nCONSTANTS NA = %d NS = %d NH = %d Dyn = TRUE NG = 2 Tcp = TRUE GMode = \"any0\"\nPOSTCONDITION TraceAccepted\n"
            "CHECK_DEADLOCK FALSE\n" % (NA, NS, NH))
     acc, rej, results = common.validate_traces("UdpProxy_Trace", cfg, traces, chk.scratch,
                                                shards=4 if chk.tier == "quick" else common.NCPU)
@@ -1241,15 +1387,18 @@ def run(chk: Check):
     chk.cov["pool"] = {"templates": _POOL.n_templates, "valid_out": len(_POOL.msgs["C"]), "valid_in": len(_POOL.msgs["H"]),
                        "banned": len(_POOL.banned["H"]), "excluded": _POOL.excluded[:20]}
     if quick:
-        _b1(chk, dict(NA=2, NS=2, NH=2, Dyn="TRUE", NG=2, GMode="addr"), "2x2x2", layouts="alternate")
-        _b1(chk, dict(NA=1, NS=1, NH=3, Dyn="TRUE", NG=2, GMode="any"), "1x1x3-2handles", layouts="alternate")
+        _b1(chk, dict(NA=2, NS=2, NH=2, Dyn="TRUE", NG=2, Tcp="FALSE", GMode="addr"), "2x2x2", layouts="alternate")
+        _b1(chk, dict(NA=1, NS=1, NH=3, Dyn="TRUE", NG=2, Tcp="FALSE", GMode="any"), "1x1x3-2handles", layouts="alternate")
+        _b1(chk, dict(NA=2, NS=2, NH=1, Dyn="TRUE", NG=1, Tcp="TRUE", GMode="addr"), "2x2x1-control", layouts="alternate")
         _b2(chk, 48, 120, "rand", churn=[150, 300, 300, 450])
     else:
-        _b1(chk, dict(NA=2, NS=2, NH=2, Dyn="TRUE", NG=2, GMode="addr"), "2x2x2")
-        _b1(chk, dict(NA=1, NS=1, NH=3, Dyn="TRUE", NG=2, GMode="any0"), "1x1x3-2handles")
+        _b1(chk, dict(NA=2, NS=2, NH=2, Dyn="TRUE", NG=2, Tcp="FALSE", GMode="addr"), "2x2x2")
+        _b1(chk, dict(NA=1, NS=1, NH=3, Dyn="TRUE", NG=2, Tcp="FALSE", GMode="any0"), "1x1x3-2handles")
+        _b1(chk, dict(NA=2, NS=2, NH=1, Dyn="TRUE", NG=1, Tcp="TRUE", GMode="addr"), "2x2x1-control")
+        _b1(chk, dict(NA=2, NS=2, NH=2, Dyn="FALSE", NG=2, Tcp="TRUE", GMode="addr"), "2x2x2-control", layouts="alternate")
         # (2 sessions x 2 handles x 2 addresses, GMode "any", is 6417 states / 1.3M edges: checked by hand, green,
         #  too slow for the 15 minute budget on a loaded machine; B2 walks mix 2 sessions and 2 handles at random)
-        _b1(chk, dict(NA=2, NS=2, NH=3, Dyn="TRUE", NG=3, GMode="addr"), "2x2x3", layouts="alternate")
+        _b1(chk, dict(NA=2, NS=2, NH=3, Dyn="TRUE", NG=3, Tcp="FALSE", GMode="addr"), "2x2x3", layouts="alternate")
         _b2(chk, 640, 160, "rand", churn=[100, 200, 300, 400, 600, 800] * 6 + [1500, 2500, 4200, 4200])
     chk.cov["exhaustive"] = True
 
